@@ -367,6 +367,9 @@ class QDepthwiseConv2DTranspose(Conv2DTranspose):
         "bias_quantizer": constraints.serialize(
             self.bias_quantizer_internal,
         ),
+        "depthwise_activation": constraints.serialize(
+            self.depthwise_activation
+        ),
         "group_size": self.group_size,
     })
     return config
